@@ -137,6 +137,8 @@ class Execution:
             return None
         if oc[0] == "error":
             raise FieldError(oc[1], oc[2] if len(oc) > 2 else None)
+        if oc[0] == "shared-error":
+            raise FieldError(oc[1], None)
         if oc[0] == "boom":
             raise Boom(oc[1])
         raise ValueError(oc)
